@@ -1,0 +1,25 @@
+//go:build verif
+
+package msgpacker
+
+// VerifMemoryCurrent returns the global buffered-bytes counter.
+func VerifMemoryCurrent() int {
+	memoryCheck.lock.RLock()
+	defer memoryCheck.lock.RUnlock()
+	return memoryCheck.current
+}
+
+// VerifMemoryMax returns the global memory budget in bytes (0 = not initialised).
+func VerifMemoryMax() int {
+	memoryCheck.lock.RLock()
+	defer memoryCheck.lock.RUnlock()
+	return memoryCheck.max
+}
+
+// VerifResetMemory resets the process-global memory protector (max 0 = uninitialised).
+func VerifResetMemory(max int) {
+	memoryCheck.lock.Lock()
+	defer memoryCheck.lock.Unlock()
+	memoryCheck.max = max
+	memoryCheck.current = 0
+}
